@@ -163,7 +163,29 @@ fn run_batched(s: &Setup, req_pub: &api::Request, ents_pub: &api::Entities, all:
     Ok((res, loader.calls, loader.extra))
 }
 
+/// the set-membership / can-error-analysis family of c14 (policies over a fixed schema whose operands run through
+/// entities that may be missing from the store), through the batched loop
+fn member_case(out: &mut Out, r: &mut Rng, cname: &str, thorough: bool) {
+    let Ok(w) = gs::load(c14::member_spec()) else { return };
+    let n_pol = 1 + r.below(3);
+    let texts: Vec<(String, usize)> = (0..3 * n_pol).map(|_| c14::member_policy(r)).collect();
+    let Some(s) = c14::setup_from(w, texts) else { out.count("no_valid_policies"); return };
+    let mut store: Vec<DEntity> = gs::gen_store(r, &s.w.spec).entities;
+    for e in store.iter_mut() { c14::shrink_sets(r, &mut e.attrs); }
+    let mut q: DRequest = crate::gen_typed::gen_request_for(r, &s.w.spec, 1, "User", "Doc");
+    c14::shrink_sets(r, &mut q.context);
+    if r.chance(50) && !store.is_empty() {
+        let drop = r.below(store.len());
+        store.remove(drop);
+    }
+    out.count("family:set-membership");
+    run_case(out, r, &s, store, q, &format!("{cname} family=set-membership"), thorough, &[Mode::Exact, Mode::OverFresh], None);
+}
+
 fn one_case(out: &mut Out, r: &mut Rng, cname: &str, thorough: bool) {
+    if r.chance(20) {
+        return member_case(out, r, cname, thorough);
+    }
     let n_pol = 1 + r.below(5);
     let Some(s) = c14::gen_setup(r, n_pol) else { out.count("no_valid_policies"); return };
     let mut store: Vec<DEntity> = gs::gen_store(r, &s.w.spec).entities;
